@@ -71,10 +71,20 @@ def handle : Handler := fun op j =>
       let types ← tyListAt tbl j "types"
       let rel ← tyListAt tbl j "relevant"
       let exp ← optList tbl j "expect"
-      let l := availTypes types rel
-      pure (res (match exp with
+      let v := match j.getObjVal? "variant" with
+        | .ok (Json.str "asIs") => Variant.asIs
+        | .ok (Json.str "repaired") => Variant.repaired
+        | _ => Variant.current
+      let anyT ← tyOptAt tbl j "any"
+      let etype ← tyOptAt tbl j "etype"
+      let r := match v, anyT, etype with
+        | .repaired, some a, some e => availTypesV .repaired a e types rel
+        | _, _, _ => FR.ok (availTypes types rel)
+      pure (res (frToJson (fun l => match exp with
         | some e => if listEq l e then Json.bool true else tysToJson l
-        | none => tysToJson l)))
+        | none => tysToJson l) r)))
+  | "find.current" => some (pure (res (Json.str (match Variant.current with
+      | .asIs => "asIs" | .repaired => "repaired"))))
   | "find.irrelevant" => some (do
       let tbl ← parseTable j
       let etype ← tyAt tbl j "etype"
